@@ -7,8 +7,8 @@
 (*                     raw, parsed fully escaped, and built.               *)
 (*  MODE = "lookup"  : strings near the seven type names -> from_str.      *)
 (*  MODE = "combined": combined names over {a b / :} x seven types.        *)
-(*  MODE = "combesc": the same over {@ % 2 F f 3 A : /}: escaped spellings *)
-(*                    of the separators are ordinary characters here.       *)
+(*  MODE = "combesc": the same over {@ % 2 F f 3 A : / ! a}: escapes of    *)
+(*                    any convention are ordinary characters here.          *)
 (*  MODE = "typestr" : type strings over {g B T 1 . + - ! , e-acute} for   *)
 (*                     the four generic type parameters (C13).             *)
 (***************************************************************************)
@@ -17,7 +17,7 @@ CONSTANTS MODE, L
 
 NameAlpha == <<97, 65, 49, 45, 95, 46, 198, 453, 931, 233, 304>>      \* a A 1 - _ . AE Dz(titlecase) Sigma e-acute I-dot(two-scalar mapping)
 CombAlpha == <<97, 98, 47, 58>>
-CombEscAlpha == <<64, 37, 50, 70, 102, 51, 65, 58, 47>>               \* @ % 2 F f 3 A : /
+CombEscAlpha == <<64, 37, 50, 70, 102, 51, 65, 58, 47, 33, 97>>       \* @ % 2 F f 3 A : / ! a
 IsComb == MODE \in {"combined", "combesc"}
 TypesN == <<PYPI, NUGET, CARGO, NPM, MAVEN>>
 AllTypes == <<CARGO, GEM, GOLANG, MAVEN, NPM, NUGET, PYPI>>
